@@ -128,7 +128,7 @@ pub fn free(seed: u64, runs: usize, dir: &str, maxlen: usize) {
                         *b = b'N';
                     }
                 }
-                let idlen = rng.range(1, 12) as usize;
+                let idlen = if j % 11 == 7 { 300 } else { rng.range(1, 12) as usize };
                 let id: Vec<u8> = (0..idlen).map(|_| *rng.pick(b"abcXYZ0189_.|:-")).collect();
                 let desc = match j % 3 {
                     0 => None,
